@@ -70,8 +70,15 @@ func (enc Encoding) base64Encoding() *base64.Encoding {
 // Encode encodes content of buf and writes to w. Encode returns Digest header
 // value (or MI header value in draft 02), and error if one exists.
 func (enc Encoding) Encode(w io.Writer, buf []byte, recordSize int) (string, error) {
-
-	numRecords := (len(buf) + recordSize - 1) / recordSize
+	if recordSize <= 0 {
+		return "", fmt.Errorf("mice: invalid record size %d", recordSize)
+	}
+	// The number of records, rounded up without adding to len(buf) (which
+	// overflows for a huge record size).
+	numRecords := len(buf) / recordSize
+	if len(buf)%recordSize != 0 {
+		numRecords++
+	}
 
 	switch enc {
 	case Draft02Encoding:
